@@ -12,15 +12,16 @@ from vf.peers import Peer, healthy_reply, http_response
 LEVEL = "fault_enumeration"
 SHARDS = {"quick": 8, "thorough": 16}
 TIMEOUT = {"quick": 300, "thorough": 2400}
-SYMBOLS = ["H", "Hc", "R", "D", "X", "S", "N", "B", "T", "Z", "J"]
+SYMBOLS = ["H", "Hc", "R", "D", "X", "S", "N", "B", "T", "Z", "J", "St"]
 MEANING = {"H": "healthy reply, keep-alive", "Hc": "healthy reply, then close", "R": "refuse: listener closed and reopened",
            "D": "close before reply", "X": "reset (SO_LINGER 0)", "S": "4xx/5xx with Content-Length",
            "N": "5xx without length, then close", "B": "bodiless non-200 status", "T": "truncated body",
-           "Z": "empty 200", "J": "non-JSON 200"}
-RULE = ("fault sequences over the 11-symbol alphabet {H healthy keep-alive, Hc healthy then close, R refuse, D close before "
+           "Z": "empty 200", "J": "non-JSON 200", "St": "4xx/5xx whose body is truncated, then close"}
+RULE = ("fault sequences over the 12-symbol alphabet {St non-200 with a truncated body, H healthy keep-alive, Hc healthy then close, R refuse, D close before "
         "reply, X reset, S 4xx/5xx with Content-Length, N 5xx without length then close, B bodiless status, T truncated "
-        "body, Z empty 200, J non-JSON 200}: quick = all sequences of length <= 3 on TCP (1 463) and <= 2 on Unix; "
-        "thorough = all of length <= 4 on TCP (16 104) and <= 3 on Unix plus random ones of length 5-10; each played "
+        "body, Z empty 200, J non-JSON 200}: quick = all sequences of length <= 3 on TCP and <= 2 on Unix; "
+        "thorough = all of length <= 4 on TCP and <= 3 on Unix plus random ones of length 5-10; plain calls, and (lengths "
+        "<= 2) batches of two calls made through one long-lived MultiCall object; each played "
         "against one ServerProxy by a scripted raw-socket peer that consumes one symbol per request ARRIVAL (the inherited "
         "transport silently retries once) and is followed by 3 healthy calls. distinct = distinct (family, sequence); "
         "non-trivial = the sequence holds at least one fault symbol and every call outcome was judged against its token.")
@@ -81,6 +82,10 @@ def make_decide(peer_box, script):
         elif sym == "S":
             status, reason = script.rng.choice(STATUS_S)
             action = {"send": http_response(status, reason, b'{"error": "nope"}', keep_alive=True), "close": False}
+        elif sym == "St":
+            status, reason = script.rng.choice(STATUS_S[:4])
+            full = http_response(status, reason, b'{"error": "this body is announced but cut short"}', keep_alive=False)
+            action = {"send": full[:full.index(b"\r\n\r\n") + 4 + script.rng.randint(0, 8)], "close": True}
         elif sym == "N":
             status = 502
             action = {"send": http_response(502, "Bad Gateway", b"upstream said no", keep_alive=False,
@@ -106,7 +111,12 @@ def make_decide(peer_box, script):
         try:
             import json as _json
             msg = _json.loads(req.body.decode("utf-8"))
-            tok = (msg.get("params") or [None])[0]
+            if isinstance(msg, list):
+                # a batch: every entry carries <call token>/<position>; attribution by the token of the LAST entry
+                # (a batch polluted by stale jobs of an earlier call still belongs to the call that sent it)
+                tok = str((msg[-1].get("params") or [None])[0]).split("/")[0]
+            else:
+                tok = (msg.get("params") or [None])[0]
         except Exception:
             pass
         with script.lock:
@@ -119,12 +129,14 @@ def make_decide(peer_box, script):
     return decide
 
 
-def play(ctx, rng, fam, seq, peer, box, label):
+def play(ctx, rng, fam, seq, peer, box, label, batches=False):
     import jsonrpclib
     script = Script(seq, rng)
     peer.decide = make_decide(box, script)
     proxy = jsonrpclib.ServerProxy(peer.url + ("/rpc" if fam == "tcp" else ""))
-    case = {"family": fam, "sequence": list(seq), "label": label}
+    # batches=True: every call is a batch of two calls made through ONE long-lived MultiCall object
+    mc = jsonrpclib.MultiCall(proxy) if batches else None
+    case = {"family": fam, "sequence": list(seq), "label": label, "batches": batches}
     calls = []
     n = 0
     after_faults = []      # outcomes of the calls started when no fault symbol remained
@@ -143,7 +155,18 @@ def play(ctx, rng, fam, seq, peer, box, label):
         if script.head() == "R":
             peer.refuse()
         try:
-            out = ("return", proxy.echo(token))
+            if mc is None:
+                out = ("return", proxy.echo(token))
+            else:
+                mc.echo(token + "/0")
+                mc.echo(token + "/1")
+                got = [r for r in mc()]
+                ctx.count("judged:batch-calls")
+                # normalised to the shape of a plain call's result when the batch returned exactly its own two results
+                if got == [{"token": token + "/0"}, {"token": token + "/1"}]:
+                    out = ("return", {"token": token})
+                else:
+                    out = ("return", {"batch-results": got})
         except BaseException as ex:  # noqa
             out = ("raise", ex)
         if peer.refusing.is_set():
@@ -176,7 +199,7 @@ def play(ctx, rng, fam, seq, peer, box, label):
                                 {"errcode": getattr(ex, "errcode", None), "own_statuses": statuses, "calls": calls})
                 elif fam == "tcp" and not ("127.0.0.1:%d" % peer.port in str(ex.url) and "/rpc" in str(ex.url)):
                     ctx.violate("TransportError-without-the-url", ccase, {"url": getattr(ex, "url", None)})
-            elif prev_ok and last[0] in ("S", "N", "B"):
+            elif prev_ok and last[0] in ("S", "N", "B", "St"):
                 # clean connection, this call's own (last) exchange was a non-200 reply
                 ctx.violate("non-200-not-surfaced-as-TransportError:" + last[0], ccase,
                             {"raised": ex, "status": last[1]})
@@ -222,6 +245,16 @@ def run(ctx):
                     if idx % 997 == 1:
                         ctx.sample({"family": fam, "sequence": [MEANING[s] for s in seq], "calls": calls})
             ctx.exhaustive["%s: all fault sequences of length <= %d" % (fam, maxlen)] = True
+            # the same for batches made through one long-lived MultiCall object (sequences up to length 2)
+            for length in (1, 2):
+                for seq in itertools.product(SYMBOLS, repeat=length):
+                    idx += 1
+                    if not ctx.mine(idx):
+                        continue
+                    if ctx.time_left() < 10:
+                        break
+                    play(ctx, rng, fam, seq, peer, box, "enumerated-batches", batches=True)
+                    ctx.cell(fam, "batches-len%d" % length)
             if not ctx.quick:
                 for i in range(1300):
                     if ctx.time_left() < 10:
